@@ -214,8 +214,8 @@ PROPS['C08'] = dict(
 PROPS['C09'] = dict(
     level='translation_validation',
     module='SlotVerif.Props.C09',
-    suites=[dict(name='look', variant='default', comparator='eg', direction=None, shrink=False, quick=dict(count=400), thorough=dict(count=30000)),
-            dict(name='look', variant='checks', comparator='eg', direction=None, shrink=False, quick=dict(count=120), thorough=dict(count=8000)),
+    suites=[dict(name='look', variant='default', comparator='eg', direction=None, shrink=False, quick=dict(count=400), thorough=dict(count=8000)),
+            dict(name='look', variant='checks', comparator='eg', direction=None, shrink=False, quick=dict(count=120), thorough=dict(count=2000)),
             dict(name='snap', variant='default', shrink=False, quick=dict(count=600), thorough=dict(count=20000))],
     rule='corr.add.lookup: after a generated history, 6 probe terms from the pools {literally inserted, alpha-renamed, free slots '
          'renamed, a tracked context rebuilt around the OTHER side of a union (present only through the union), a new context, random}: '
